@@ -51,7 +51,7 @@ EXPLANATION = (
     "util.py: reference loop shape (i % 4, length test first) and every binding of _websocket_mask."
 )
 NOT_DECIDED = "undefined-behaviour/ABI questions (unaligned or aliasing-violating word accesses), CPython's 's#' parsing, whether the extension is built and importable at run time; nothing is executed"
-LEVEL_NOTE = "LP64 type widths are assumed for the lane evaluation (uint32_t = 4, uint64_t/size_t/Py_ssize_t = 8 bytes)"
+LEVEL_NOTE = "Discharges the hypotheses of the word-wise == byte-wise induction from the clang AST (LP64 widths assumed: uint32_t 4, uint64_t/size_t/Py_ssize_t 8 bytes); NOT decided: " + NOT_DECIDED
 
 CREL = "tornado/speedups.c"
 U = "tornado/util.py"
